@@ -15,7 +15,7 @@ class C05(Prop):
           "running ActiveObject, 1-3 poster threads plus the body thread posting fifo/lifo events, "
           "optionally 1 or 497..500 events queued before start_at so that the bounded token queue "
           "is reached (one heavy case in ten on a subclass declaring QUEUE_SIZE 600 with 501/540 events waiting), optionally long bursts of 15-40 posts per poster that overlap the object's "
-          "steps, optionally with live spy/trace output switched on; the generated schedule prefix is followed by fair round-robin. Oracle: the "
+          "steps, optionally with live spy/trace output switched on, optionally a state that empties the object's own queue (chart.queue.clear()) while the posters post; the generated schedule prefix is followed by fair round-robin. Oracle: the "
           "exact deadlock detector (every thread blocked, no timer pending) never fires, the step "
           "bound (400k scheduling steps, >100x the longest passing run) is never reached under the "
           "fair suffix, and at quiescence every poster has finished and the consumer is blocked "
@@ -36,7 +36,7 @@ class C05(Prop):
     nposters = len(case["posters"]) + (1 if case["body"] else 0)
     stats.case(case, nposters >= 2 and out["switch_inside_post"] >= 1,
                ["heavy_%s" % case.get("heavy", 0), "posters_%d" % len(case["posters"]),
-                "steps_le_%d" % (10 ** len(str(s.steps)))])
+                "steps_le_%d" % (10 ** len(str(s.steps)))] + (["state_clears_its_queue"] if case.get("clears") else []))
     if out["failure"]:
       kind, msg = out["failure"]
       raise PropertyViolation("%s after %d steps: %s" % (kind, s.steps, msg), "C05:" + kind)
